@@ -22,6 +22,8 @@ import M4riProofs.GenTieRec
 import M4riProofs.GenTiePleFinal
 import M4riProofs.GenTieStrassen
 import M4riProofs.GenTieClose
+import M4riProofs.GenTieMul
+import M4riProofs.GenTieClose4
 namespace M4ri.Props.C12
 open M4ri M4ri.BMat
 
@@ -157,5 +159,18 @@ end cfg2
     and on windows written back (GenTieClose.lean) -/
 #check @M4ri.GenTieClose.cTrsmUR_correct
 #check @M4ri.GenTieClose.cTrsmLL_correct
+
+
+/-! ### the PUBLIC entry points on the C text (GenTieMul.lean): the generated `mzd_mul` / `mzd_addmul` (cut-off normalisation with the default numeral =
+    4096, `A == B` dispatch to the squaring route, early return of the accumulating product) over the closed recursion compute the product -/
+#check @M4ri.GenTieMul.mzdMul_correct
+#check @M4ri.GenTieMul.strassenCutoff_eq
+
+
+/-! ### THE WHOLE `_mzd_ple` on the C text (GenTieClose4.lean): `pleFull` is the complete generated function (zero-row test through the translated
+    `mzd_first_zero_row`, permutation initialisation, regime test with the cut-off numeral = 524288, base case through a copy, recursive
+    branch); `cPleFull n` = it bound to itself `n` levels deep: for every depth it returns what `pleRec n` returns, a valid PLE factorisation -/
+#check @M4ri.GenTieClose4.cPleFull_correct
+#check @M4ri.GenTieClose4.pleCutoff_eq
 
 end M4ri.Props.C12
